@@ -38,6 +38,7 @@ import (
 	"github.com/sirupsen/logrus"
 	"github.com/spf13/viper"
 	"io/ioutil"
+	"math"
 	"net/url"
 	"os"
 	"path/filepath"
@@ -69,11 +70,16 @@ func NewService(uri string) (svc *Service, err error) {
 	}, err
 }
 
+// runCounterFileMu serializes the read-increment-write cycle on the run counter file (file backend only).
+var runCounterFileMu sync.Mutex
+
 func (s *Service) NewRunNumber() (runNumber uint32, err error) {
 	if cSrc, ok := s.src.(*cfgbackend.ConsulSource); ok {
 		return cSrc.GetNextUInt32(filepath.Join(getConsulRuntimePrefix(), "run_number"))
 	} else {
-		// Unsafe check-and-set, only for file backend
+		// Check-and-set for the file backend: one caller at a time within this process
+		runCounterFileMu.Lock()
+		defer runCounterFileMu.Unlock()
 		var rnf string
 		rnf = filepath.Join(viper.GetString("coreWorkingDir"), "runcounter.txt")
 		if _, err = os.Stat(rnf); os.IsNotExist(err) {
@@ -90,6 +96,11 @@ func (s *Service) NewRunNumber() (runNumber uint32, err error) {
 		var rn64 uint64
 		rn64, err = strconv.ParseUint(string(raw[:]), 10, 32)
 		if err != nil {
+			return
+		}
+		if rn64 >= math.MaxUint32 {
+			// no wrap-around: 0 means "no run", and numbers already handed out must never come back
+			err = errors.New("run number counter exhausted")
 			return
 		}
 		runNumber = uint32(rn64)
@@ -435,7 +446,7 @@ func (s *Service) ResolveComponentQuery(query *componentcfg.Query) (resolved *co
 
 	resolved = &componentcfg.Query{}
 	if query == nil {
-		*resolved = *query
+		err = errors.New("cannot resolve a nil component configuration query")
 		return
 	}
 	resolved, err = s.resolveComponentQuery(query)
